@@ -27,3 +27,23 @@ SPEC = {
     ],
     "assumptions": ["strings are byte strings; Go's string order is bytes.Compare (lexLt)", "NaN is outside the property's domain (stated in the property)"],
 }
+
+
+def search(ctx):
+    """Called when a proof obligation / the translator / the correspondence broke but the standard
+    run's oracle saw no failing input: look harder (more cases, more seeds) for an input on which
+    the real code violates round-trip / order / injectivity."""
+    import json, os
+    r = ctx["runner"]
+    for k in range(1, 6):
+        d = os.path.join(ctx["rundir"], f"search{k}")
+        rc, out, _ = r.sh([ctx["hbin"], "-seed", str(ctx["seed"] * 1000 + k), "-n", "40000", "-out", d], env=r.GOENV, timeout=600)
+        p = os.path.join(d, "stats.json")
+        if rc != 0 or not os.path.exists(p):
+            continue
+        fails = json.load(open(p)).get("oracle_failures") or []
+        import re
+        for f in fails:
+            if not any(k_.get("status") == "open" and re.fullmatch(k_["signature"], f["signature"]) for k_ in ctx["known"]):
+                return f
+    return None
